@@ -44,12 +44,16 @@ MC = {
     "q_kinds":   dict(N=4, NC=2, fail=0, retry=0, wait=0, time=1, restart=0, abort=0, kinds=True),
     "t_kinds":   dict(N=4, NC=2, fail=1, retry=0, wait=0, time=1, restart=0, abort=0, kinds=True),
     "q_live":    dict(N=3, fail=1, retry=0, wait=1, time=1, restart=0, abort=0, lanes="Lanes1", undo="BoolBoth", live=True),
+    # any acyclic dependency relation (task order independent of dependency order); panicked states terminal
+    "q_anyorder": dict(N=3, fail=1, retry=0, wait=0, time=1, restart=0, abort=1, lanes="Lanes1", undo="BoolBoth", anyorder=True),
+    "t_anyorder": dict(N=3, fail=1, retry=0, wait=0, time=1, restart=1, abort=1, lanes="Lanes2", undo="BoolBoth", anyorder=True),
 }
 
 PLAN = {
     "C01": {"quick": ["q_fail", "q_abort"], "thorough": ["q_fail", "t_fail2", "t_abort", "t_n4", "t_mix"]},
     "C02": {"quick": ["q_retry", "q_wait"], "thorough": ["t_retry", "t_wait", "t_n4", "t_mix"]},
-    "C03": {"quick": ["q_wait", "q_abort", "q_live"], "thorough": ["t_wait", "t_abort", "t_fail2", "t_live", "t_mix"]},
+    "C03": {"quick": ["q_wait", "q_abort", "q_anyorder", "q_live"],
+            "thorough": ["t_wait", "t_abort", "t_fail2", "t_anyorder", "t_live", "t_mix"]},
     "C04": {"quick": ["q_restart"], "thorough": ["t_restart", "t_mix", "t_n4"]},
     "C07": {"quick": ["q_kinds"], "thorough": ["q_kinds", "t_kinds"]},
 }
@@ -66,12 +70,14 @@ INV = {
 def write_cfg(d, name, p, pid):
     live = p.get("live")
     spec = "MCSpecKinds" if p.get("kinds") else ("MCLive" if live else "MCSpec")
+    if p.get("anyorder"):
+        spec = "MCSpecAnyOrder"
     lines = ["SPECIFICATION %s" % spec, "CONSTANTS",
              "  N = %d" % p["N"], "  NC = %d" % p.get("NC", 1),
              "  MaxFail = %d" % p["fail"], "  MaxRetry = %d" % p["retry"], "  MaxWaitRes = %d" % p["wait"],
              "  MaxTime = %d" % p["time"], "  MaxRestart = %d" % p["restart"], "  MaxAbort = %d" % p["abort"],
              "  LaneChoices <- %s" % p.get("lanes", "Lanes1"), "  UndoChoices <- %s" % p.get("undo", "BoolTrue"),
-             "INVARIANTS TypeOK %s" % " ".join(INV[pid])]
+             "INVARIANTS TypeOK %s" % ("PanicOnlyByAbort AnyOrderOK" if p.get("anyorder") else " ".join(INV[pid]))]
     if live:
         lines.append("PROPERTY Settles")
     elif pid == "C04":
@@ -132,6 +138,23 @@ def record(ctx, pid):
         if rc2 != 0:
             problem = o2
     return out, n, problem
+
+
+def abort_order_probe(ctx, pid):
+    """Known finding (C03): deterministic reproducer of the TLC counterexample on MCSpecAnyOrder."""
+    if pid != "C03":
+        return []
+    tb = goharness.ext_test_build(ctx, "taskengine")
+    rc, o = goharness.run_test_bin(ctx, tb, "^TestVerifAbortOrderProbe$", timeout=300)
+    m = re.search(r'VERIF-PROBE abort-order (PANIC|OK) (.*)', o)
+    if not m:
+        raise InfraError("abort-order probe did not report:\n" + common.tail(o, 20))
+    if m.group(1) == "PANIC":
+        return [Violation(
+            key="Change.Abort panics: change unexpectedly became unready (pending task precedes Done task in task order)",
+            desc="tasks 1<-2<-3 (1 waits for 2, 2 for 3), 3 completes, Change.Abort() before the next Ensure: " + m.group(2),
+            replay={"graph": {"waits": [[2], [3], []]}, "schedule": ["Ensure", "Finish(3,ok)", "Abort(1)"], "panic": m.group(2)})]
+    return []
 
 
 def write_trace_cfg(d, pid, precise):
@@ -266,6 +289,7 @@ def run(ctx, pid):
     violations = []
     if problem:
         violations.append(driver_crash_violation(pid, problem))
+    violations.extend(abort_order_probe(ctx, pid))
     files = sorted(glob.glob(os.path.join(out, "trace_*.ndjson")))
     cfgdir = ctx.subdir("tcfg")
     results = []
